@@ -114,7 +114,7 @@ func report(c *lib.Ctx, vc VCase, d diff, root string) {
 	keys := map[string]string{}
 	for _, m := range d.Missing {
 		k := "glob:missing:" + code + "@" + treeText(vc.Tree)
-		if vc.Pat.Type == "regular" && isSymlink(root, m) {
+		if vc.Pat.Type == "regular" && isSymlink(root, m) && producedWithoutType(vc, root, m) {
 			k = "glob:type-regular-excludes-symlink"
 		} else if needsBacktracking(vc.Pat) {
 			k = "glob:restricted-star-needs-backtracking"
@@ -137,6 +137,28 @@ func report(c *lib.Ctx, vc VCase, d diff, root string) {
 	for _, k := range sortedKeys(boolMap(keys)) {
 		c.Reject(k, desc+":"+keys[k], vc)
 	}
+}
+
+// producedWithoutType tells which step of the real code lost the link m: the same pattern is run
+// again without its type: modifier (absolute prefix, so the cwd does not matter); if m is produced
+// then, the type filter dropped it, otherwise the matching did.
+var classifyMu sync.Mutex
+var classifyEv *eval.Evaler
+
+func producedWithoutType(vc VCase, root, m string) bool {
+	classifyMu.Lock()
+	defer classifyMu.Unlock()
+	if classifyEv == nil {
+		classifyEv = elv.New()
+	}
+	v2 := vc
+	v2.Pat.Type = ""
+	v2.Pat.Nomatchok = true
+	rr, err := execCase(classifyEv, &v2, root, "abs", 0, false)
+	if err != nil || rr.Panic != "" {
+		return false
+	}
+	return setOf(rr.Res)[m]
 }
 
 func boolMap(m map[string]string) map[string]bool {
